@@ -139,6 +139,13 @@ StopFails(r, X, j) ==
              ELSE Failing({ <<"StopAtFirstHit", StopVerdict(s, cls) => j = r.last>>,
                             <<"StopOnlyWhenTrue", (j = r.last /\ r.last < ExpectedLast(r)) => StopVerdict(s, cls)>> }))
 
+\* near-threshold situations at instant j that are not judged (reported as U| lines: C07 pairs use them)
+Unjudged(r, ep, j) ==
+  LET X == Inst(ep, j) IN
+  CoreNums(X) /\
+  ( \/ (r.stop > 0 /\ ~(j = 1 /\ Fresh(r)) /\ LET v == SensorValue(StopOf(r), X) IN v # SNull /\ StopClass(v, r.thr) = "band")
+    \/ (r.ctrl > 0 /\ \E idx \in 1..Len(Tr.ctrls[r.ctrl]) : "any" \in RuleAllowed(Tr.ctrls[r.ctrl][idx], X, ep, j, r.dt)) )
+
 (* ---- one recorded instant ---- *)
 \* P: previous instant or "none"; returns the failing clauses under the hypothesis `held'
 InstFails(r, ep, j, held) ==
@@ -244,6 +251,7 @@ Instant == /\ ph = "inst"
                       /\ Report(InstFails(r, ep, k, CHOOSE c \in cands : TRUE), k)
                       /\ nf' = nf + 1
               /\ (Cardinality(cands) > 1 => PrintT("U|" \o Tr.id \o "|lock decision within rounding distance at " \o ToString(oi) \o "." \o ToString(k)))
+              /\ (Unjudged(r, ep, k) => PrintT("U|" \o Tr.id \o "|stop or rule threshold within rounding distance at " \o ToString(oi) \o "." \o ToString(k)))
               /\ IF k < RecCount(r) THEN k' = k + 1 /\ ph' = "inst" ELSE k' = k /\ ph' = "end"
            /\ UNCHANGED <<tid, oi>>
 
